@@ -1,3 +1,4 @@
 Require Import ExtrOcamlBasic ExtrOcamlNativeString.
-Require Import MPSV.Conc.JobQueue MPSV.Conc.WorkerModel MPSV.Conc.LockOrder.
-Extraction "../ocaml/worker.ml" step run w_init q_next q_init q_nth pc_tag pc_root holds_root holders acyclic.
+Require Import MPSV.Conc.JobQueue MPSV.Conc.WorkerModel MPSV.Conc.LockOrder MPSV.Conc.WorkerRefined.
+Extraction "../ocaml/worker.ml" step run w_init q_next q_init q_nth pc_tag pc_root holds_root holders acyclic
+  rstep rrun r_init mk_params prog_of ann_of check_prog instr_at lock_of stat_tag pc_of owns_root owners effective thr0 val_writes_locked other_reads_locked.
